@@ -84,6 +84,11 @@ class World(EventDispatcher):
         # Code duplication for performance, see add_component
         for component in components:
             component_type = type(component)
+
+            # Manage replaced components (the given id may be in use)
+            if component_type in self._entities.get(entity_id, {}):
+                self.remove_component(entity_id, component_type)
+
             if component_type not in self._components:
                 self._components[component_type] = set()
 
